@@ -91,6 +91,15 @@ def cases(tier, seed):
             if shape == 'etm':
                 c['cbc'] = rng.sample(cbc, 1)
             cs.append(c)
+            # ... and the unknown name in front of / behind a known name of the same shape: the known one is flagged wherever it stands
+            pool = {'cha': cha, 'cbc': cbc, 'etm': etm}[shape]
+            for k_, order in enumerate(('unknown-first', 'unknown-last')):
+                if tier == 'quick' and shape == 'cha' and k_:
+                    continue
+                c2 = dict(c, seed=rng.randrange(1 << 30), beside=order)
+                known = rng.sample([x for x in pool if x != name], 1)
+                c2[shape] = [name] + known if order == 'unknown-first' else known + [name]
+                cs.append(c2)
     return cs
 
 
